@@ -192,6 +192,17 @@ static void gen(long seed, int nrandom, int nops, int both)
 		reset(bigd[i], 65535, i % 2 ? 65534 : 0, i % 2);
 		systematic();
 	}
+	/* every message size that is a power of two (and its neighbours above 128), through both initialisers */
+	for (int k = 0; k < 16; k++)
+		for (int dlt = -1; dlt <= 1; dlt++) {
+			int m = (1 << k) + dlt;
+			if (m < 1 || (dlt && k < 7) || (!both && dlt && k % 3)) continue;
+			static const int pd[] = { 2, 3, 5 };
+			for (int st = 0; st < 2; st++) {
+				reset(pd[(k + st + dlt + 1) % 3], m, (k + st) % 2 ? (m > 1 ? 1 : 0) : 0, st);
+				systematic();
+			}
+		}
 	static const int sizes[] = { 1, 3, 4, 7, 12, 24, 1000, 4096 };   /* 32 x 4096 > 64 KiB: offsets beyond 16 bits */
 	drv_srand(seed);
 	/* the caller's memory at every offset from an 8-byte boundary, message sizes that are and are not multiples of the word size */
